@@ -101,12 +101,12 @@ type smRunner struct {
 	joins int
 	leave int
 	// newcomer tracking for C08 (second sentence)
-	nx       int // seat of the tracked newcomer, -1 none
-	nxSeated bool
-	nxPassed bool
-	nxActive bool // the seat was still active when the newcomer joined AND it was occupied at the last successful Next (vacated since)
-	occAtNext []bool // occupancy at the last successful Next
-	lastDealer int   // ghost: the dealer's seat after the last successful Next (-1: none, or a Next has failed since)
+	nx         int // seat of the tracked newcomer, -1 none
+	nxSeated   bool
+	nxPassed   bool
+	nxActive   bool   // the seat was still active when the newcomer joined AND it was occupied at the last successful Next (vacated since)
+	occAtNext  []bool // occupancy at the last successful Next
+	lastDealer int    // ghost: the dealer's seat after the last successful Next (-1: none, or a Next has failed since)
 }
 
 func (r *smRunner) newSM(max int) {
